@@ -54,7 +54,7 @@ SELF_IP = "10.0.0.1"
 PEER = "10.0.0.2"
 IPS = ["10.9.9.9", PEER, SELF_IP, "10.9.9.9"]
 PORTS = [5353, 5353, 5353, 40000, 53, 1, 65535]
-SRC6 = [("fe80::9", 5353, 0, 3), ("fe80::9", 5353, 0, 3), ("fe80::a", 40000, 0, 2), ("fe80::b", 5353, 7, 0), ("2001:db8::1", 5353, 0, 0), ("fe80::c", 53, 0, 9)]
+SRC6 = [("fe80::2", 5353, 0, 3), ("fe80::2", 5353, 0, 0), ("fe80::9", 5353, 0, 3), ("fe80::a", 40000, 0, 2), ("fe80::b", 5353, 7, 0), ("2001:db8::1", 5353, 0, 0), ("fe80::c", 53, 0, 9)]
 GAPS = [0, 0, 0, 1, 5, 50, 120, 300, 450, 999, 1000, 1200, 5000, 11000]
 MAXLEN = 8966
 
@@ -135,7 +135,9 @@ def query_packet(rng, names):
     if rng.random() < 0.1:
         body += rr(wname(labels_of("s1." + TA)), 33, 1, 120, struct.pack(">HHH", 0, 0, 80) + wname(labels_of("other.local.")))
         nau = 1
-    return hdr(rng.randrange(65536), flags, nq, nan, nau) + body
+    # 16-bit boundary ids as well (the id is echoed into unicast replies)
+    id_ = rng.choice([rng.randrange(65536), rng.randrange(65536), 0, 1, 127, 128, 129, 255, 256, 0x7FFF, 0x8000, 0xFFFF])
+    return hdr(id_, flags, nq, nan, nau) + body
 
 
 def resp_packet(rng, hostile):
@@ -193,6 +195,23 @@ def lookup_resp(rng):
     return hdr(0, 0x8400, 0, len(recs)) + b"".join(recs)
 
 
+def lookup_trunc(rng):
+    """a valid response for the lookup in progress (SRV x.TB -> hx.local., TXT, and a final A or AAAA record of hx.local.), cut
+    at a random offset inside the rdata of the LAST record: the decoder slices silently, so the record survives with an
+    address of 0..15 bytes (4 bytes parse as IPv4)"""
+    inst = wname([b"x"] + labels_of(TB))
+    host = wname([b"hx", b"local"])
+    recs = [rr(inst, 33, 0x8001, 120, struct.pack(">HHH", 0, 0, 8080) + host)]
+    if rng.random() < 0.5:
+        recs.append(rr(inst, 16, 0x8001, 4500, b"\x03a=b"))
+    t = rng.choice([28, 28, 28, 1])
+    full = bytes([0xFE, 0x80] + [0] * 13 + [7]) if t == 28 else socket.inet_aton("10.0.0.7")
+    recs.append(rr(host, t, 0x8001, 120, full))
+    pkt = hdr(0, 0x8400, 0, len(recs)) + b"".join(recs)
+    cut = rng.randrange(len(full) + 1)          # bytes of the last rdata that are kept: 0 .. len (len = untruncated)
+    return pkt[:len(pkt) - len(full) + cut]
+
+
 CYC = "cyc"          # an instance of the browsed type that is announced / withdrawn / re-announced inside the streams
 BURST_GAPS = [0, 20, 30, 50, 50, 100, 400, 450, 450, 480, 480]
 
@@ -227,7 +246,7 @@ def burst_packets(rng, names):
 REP_GAPS = [300, 900, 900, 999, 1000, 1001]
 REP_SRCS = [("10.9.9.9", 40000), (PEER, 40000), ("10.7.7.7", 40001), (PEER, 53), ("10.9.9.9", 40002)]
 
-KINDS = ["cycle", "cycle", "cycle", "burst", "burst", "canrep", "canrep", "rand", "c02valid", "c02mut", "c02out", "c02outmut", "graph", "chain", "live", "livemut", "livemut", "query", "query", "querymut",
+KINDS = ["cycle", "cycle", "cycle", "burst", "burst", "canrep", "canrep", "lookuptrunc", "lookuptrunc", "rand", "c02valid", "c02mut", "c02out", "c02outmut", "graph", "chain", "live", "livemut", "livemut", "query", "query", "querymut",
          "resp", "hostile", "hostile", "lookup", "d8", "d8b", "oversize", "repeat"]
 
 
@@ -248,10 +267,14 @@ def gen_item(rng, live, names, last, k=None):
     elif k == "c02mut":
         p, w = c02.gen_valid(rng)
         d = c02.mutate(rng, p, w)
-    elif k == "c02out":
-        d = c02.gen_outgoing(rng)
-    elif k == "c02outmut":
-        d = c02.mutate(rng, c02.gen_outgoing(rng))
+    elif k in ("c02out", "c02outmut"):
+        # built with the library's own encoder: on a tree where that raises, fall back to a wire-built message (the harness must not crash)
+        try:
+            d = c02.gen_outgoing(rng)
+        except Exception:
+            d = c02.gen_valid(rng)[0]
+        if k == "c02outmut":
+            d = c02.mutate(rng, d)
     elif k == "graph":
         d = c02.gen_graph(rng)
     elif k == "chain":
@@ -270,6 +293,8 @@ def gen_item(rng, live, names, last, k=None):
         d = resp_packet(rng, True)
     elif k == "lookup":
         d = lookup_resp(rng)
+    elif k == "lookuptrunc":
+        d = lookup_trunc(rng)
     elif k == "d8":
         d = d8_packet(rng.choice([21, 22, 40, 63] + EDGE_LABELS), rng.choice(names), rng.randrange(65536))
     elif k == "d8b":
@@ -511,7 +536,7 @@ def simulate(case):
                 else:
                     kind, data = gen_item(rng, live, names, last, kind0)
                     src = (rng.choice(IPS), rng.choice(PORTS))
-                    if rng.random() < (0.5 if kind in ("lookup", "resp", "hostile") else 0.2):
+                    if rng.random() < (0.5 if kind in ("lookup", "lookuptrunc", "resp", "hostile") else 0.2):
                         # an IPv6 source: the socket layer hands the listener a 4-tuple (address, port, flowinfo, scope id)
                         src = rng.choice(SRC6)
                     if kind == "d8":
